@@ -18,7 +18,7 @@ def seq_history(r, hid):
 def run(res, tier, seed, replay):
     res.corr_diffs = []
     res.cov["rule"] = ("real: (a) sequential scripts in one lifetime: 1-2 counted fakes (N in 0..3, with and without `when`), 0-7 calls interleaving matching and non-matching arguments, compared per call and at scope exit with the extracted "
-                       "lifetime machine and with the counting rule; (b) concurrent: for N in {0,1,2,3,7,64}, k in 0..N+2 matching calls plus 0-3 non-matching ones split over 1-16 threads released by a barrier, each case in a forked child: "
+                       "lifetime machine and with the counting rule; (a') a counted lifetime that follows one which absorbed calls and was left by a panic (user panic, rejected or over-budget call); (b) concurrent: for N in {0,1,2,3,7,64}, k in 0..N+2 matching calls plus 0-3 non-matching ones split over 1-16 threads released by a barrier, each case in a forked child: "
                        "admitted = min(k,N), over-called = k-admitted, rejected = non-matching, exit panics iff k != N naming N and k; the extracted Counter model is run on a random schedule of the same calls; "
                        "distinct = distinct (N, k class relative to N, threads, non-matching count) / (op-kind set)")
     res.cov["trusted_base"] = vlib.TRUSTED_COMMON + ["AtomicUsize::fetch_add is one atomic read-modify-write (the model's Rmw step)", "harness/real count: barrier-released threads, catch_unwind per call"]
@@ -29,6 +29,16 @@ def run(res, tier, seed, replay):
     r = random.Random(seed + 6)
     # (a) sequential
     histlib.check_histories(res, "c06", 120 if tier == "quick" else 3000, seed + 6, "full", gen=lambda rr, hid, max_lifetimes=1: seq_history(rr, hid), novals=True, nodiff=True)
+    # (a') the same accounting must be exact in a lifetime that FOLLOWS one which absorbed calls and was left by unwinding
+    def after_unwound(rr, hid, max_lifetimes=2):
+        k = rr.choice([1, 2, 3]); t = rr.choice(["r0", "r1"])
+        first = [f"T:{t}:{k}"] + ["C:" + t] * rr.randint(1, k) + [rr.choice(["P", "CX:" + t, "C:" + t + ",C:" + t + ",C:" + t])]
+        first = [o for x in first for o in x.split(",")]
+        line2, lts2 = seq_history(rr, hid)
+        second = [f"T:{t}:{k}"] + ["C:" + t] * rr.randint(0, k + 1)
+        lts = [first, second]
+        return f"{hid} r0,r1,r2,r3,r4,fk0,fk1,fk2,fk3 " + "|".join(",".join(o) for o in lts), lts
+    histlib.check_histories(res, "c06", 40 if tier == "quick" else 1000, seed + 66, "full", gen=after_unwound, novals=True, nodiff=True)
     # (b) concurrent
     exe = reallib.build(res)
     if not exe: return
